@@ -39,7 +39,7 @@ REVIEWED = [
     (r'^bencode::validate$', r'^overflow:Sub\(<impl \[T\]>::len\(bytes\), pos\)$', 'pos <= bytes.len(): pos only advances past bytes obtained by get(pos) or by a length already checked against the remainder'),
     (r'^bencode::validate$', r'^overflow:Add\(pos, len\)$', 'len <= bytes.len() - pos was checked on the line above'),
     # bounds
-    (r'^bucket::Bucket::add_node$', r'^bounds\(index=(Iterator>::position|<T>::or_else\(Iterator>::position)', 'index returned by position() over the same 8-slot array (C08 victim rule)'),
+    (r'^bucket::Bucket::add_node$', r'^bounds\(index=(Iterator>::position|<T>::or(_else)?\(Iterator>::position)', 'index returned by position() over the same 8-slot array (C08 victim rule)'),
     (r'^info_hash::InfoHash::from_ip$', r'^bounds\(index=Range<A>>::next', 'i < num_octets <= 8 = length of both arrays'),
     (r'^info_hash::InfoHash::from_ip$', r'^(IndexMut::index_mut\(repeat, (RangeTo\{[48]\}|Range\{3, 19\})\)|Index::index\(Ipv[46]Addr::octets\(ip\.0\), RangeTo\{[48]\}\)|Index::index\(agg, Range\{0, agg\}\)|<impl \[T\]>::copy_from_slice\()', 'constant ranges ..4 / ..8 / 3..19 / 0..num_octets within arrays of 4, 8, 16, 20 bytes; both sides of copy_from_slice have the same constant length'),
     (r'^info_hash::InfoHash::from_ip$', r'^overflow:Sh[lr]\(', 'constant shift amounts below the operand width'),
